@@ -101,8 +101,13 @@ def decide(name, assumptions, bad, vars_, logic='QF_BV', all_sat=False, max_mode
             v.result = 'sat' if v.models else 'unsat'
             break
         if r != z3.sat:
-            v.result = 'inconclusive'
-            v.note = 'primary solver: %s (%s)' % (r, s.reason_unknown())
+            if v.models:
+                # the enumeration of FURTHER counterexamples gave up; the ones found stand
+                v.result = 'sat'
+                v.note = 'enumeration stopped after %d models: primary solver %s (%s)' % (len(v.models), r, s.reason_unknown())
+            else:
+                v.result = 'inconclusive'
+                v.note = 'primary solver: %s (%s)' % (r, s.reason_unknown())
             break
         m = s.model()
         v.models.append(_model_dict(m, vars_))
